@@ -1905,8 +1905,9 @@ def m_arg_display(ex, st, c): return Opaque('fmtarg', ('display', D(ex, st, c.ar
 def m_arg_debug(ex, st, c): return Opaque('fmtarg', ('debug', D(ex, st, c.args[0])))
 
 
-@model(r'^core::fmt::rt::Argument::<.*>::new_binary$', r'^core::fmt::rt::Argument::new_binary$', r'^core::fmt::rt::Argument::<.*>::new_lower_hex$')
-def m_arg_binary(ex, st, c): return Opaque('fmtarg', ('binary' if 'binary' in c.callee else 'hex', D(ex, st, c.args[0])))
+@model(r'^core::fmt::rt::Argument::<.*>::new_binary$', r'^core::fmt::rt::Argument::new_binary$', r'^core::fmt::rt::Argument::<.*>::new_lower_hex$', r'^core::fmt::rt::Argument::new_lower_hex$',
+       r'^core::fmt::rt::Argument::(<.*>::)?new_upper_hex$')
+def m_arg_binary(ex, st, c): return Opaque('fmtarg', ('binary' if 'binary' in c.callee else 'HEX' if 'upper_hex' in c.callee else 'hex', D(ex, st, c.args[0])))
 
 
 @model(r'^core::fmt::rt::Argument::<.*>::from_usize$', r'^core::fmt::rt::Argument::from_usize$')
@@ -1940,9 +1941,9 @@ def render_display(ex, st, kind, v, flags=None):
         if isinstance(v, Opaque): return opaque_msg(ex, st, v.tag)
         if hasattr(v, 'sort') and z3.is_bool(v):
             return SymStr((Atom(z3.If(v, bvval(4, LW), bvval(5, LW)), tuple(z3.If(v, bvval(a, 8), bvval(b, 8)) for a, b in zip(b'true\0', b'false'))),))
-    if kind == 'binary' and isinstance(v, Int):
-        if v.conc: return SymStr.const(format(v.v, 'b'))
-        return opaque_msg(ex, st, 'binary')     # text of a symbolic number in base 2: opaque (must not flow into an asserted value)
+    if kind in ('binary', 'hex', 'HEX') and isinstance(v, Int):
+        if v.conc: return SymStr.const(format(v.v & ((1 << WIDTH[v.ty]) - 1), {'binary': 'b', 'hex': 'x', 'HEX': 'X'}[kind]))
+        return opaque_msg(ex, st, kind)     # text of a symbolic number in base 2 / 16: opaque (must not flow into an asserted value)
     if kind == 'debug':
         return opaque_msg(ex, st, 'debug')
     raise Unsupported('format %s of %r' % (kind, v))
@@ -1975,8 +1976,8 @@ def m_format(ex, st, c):
             vv = D(ex, st, v)
             if width is None and prec is None and not flags:
                 out.append(render_display(ex, st, kind, v))
-            elif kind == 'binary' and isinstance(vv, Int) and vv.conc and width is not None:
-                s = format(vv.v, 'b')
+            elif kind in ('binary', 'hex', 'HEX') and isinstance(vv, Int) and vv.conc and width is not None:
+                s = format(vv.v & ((1 << WIDTH[vv.ty]) - 1), {'binary': 'b', 'hex': 'x', 'HEX': 'X'}[kind])
                 fill = '0' if (flags or 0) & (1 << 24) or True else ' '
                 out.append(SymStr.const(s.rjust(width, '0')))
             elif isinstance(vv, Int) and vv.ty in ('f64', 'f32'):
